@@ -91,6 +91,15 @@ def handle (j : Json) : R (List (String × Json)) := do
     | .error _ =>
       let notRun := (impl.getObjVal? "not_run").isOk
       return [("model", Json.null), ("oracle", Json.mkObj [("returned", bool notRun)]), ("not_run", bool notRun)]
+  else if k == "lkh_grid" then
+    -- bulk search inside the harness: the verdict is what it found (instances that exceeded the evaluation budget, instances
+    -- whose result is no permutation with the same start and a cost not above the input)
+    let exceeded ← arrF impl "exceeded"
+    let broken ← arrF impl "contract_broken"
+    return [("model", Json.null), ("oracle", Json.mkObj [
+      ("every_instance_returned_within_the_evaluation_budget", bool exceeded.isEmpty),
+      ("every_result_is_a_permutation_with_the_same_start_and_no_higher_cost", bool broken.isEmpty)]),
+      ("info", Json.mkObj [("instances", fldD impl "instances" Json.null)])]
   else if k == "lkh_pts" then
     -- Euclidean costs (f64 square roots in the implementation): the cost clause is decided on square roots scaled by
     -- 10^12 and rounded down, with one unit of slack per leg; termination, permutation and start are exact
